@@ -472,9 +472,9 @@ Qed.
 
 (* ---------------------------------------------------------------- the theorem *)
 
-Lemma known_unpack p m q : KnownClass_span p m q = false ->
+Lemma known_unpack fx p m q : KnownClass_span fx p m q = false ->
   (negb (span_vis m) && existsb (fun c => ceq c CR) (after_last_nl p) = false) /\
-  (span_vis m = true ->
+  (fx = false -> span_vis m = true ->
    match meet_of p m q with
    | r0 :: r1 :: rest => match slice (p ++ m ++ q) (fst (last rest r1)) (snd (last rest r1)) with
                          | Some l2 => has_crlf l2 | None => false end
@@ -484,7 +484,7 @@ Lemma known_unpack p m q : KnownClass_span p m q = false ->
 Proof.
   unfold KnownClass_span. intros H. apply orb_false_iff in H as [H H4]. apply orb_false_iff in H as [H H3].
   apply orb_false_iff in H as [H1 H2]. split; [exact H1|]. split; [|split].
-  - intros Hv. rewrite Hv in H2. exact H2.
+  - intros -> Hv. rewrite Hv in H2. exact H2.
   - intros He. rewrite He in H3. destruct q; [reflexivity|discriminate].
   - intros -> ->. destruct (after_last_nl p); [reflexivity|discriminate].
 Qed.
@@ -509,11 +509,11 @@ Proof.
   apply orb_false_iff in H as [Hc Hx]. unfold is_crlf in Hc. rewrite orb_comm in Hc. rewrite Hc. cbn [negb]. now rewrite IH.
 Qed.
 
-Theorem render_span_shows p m q msg : KnownClass_span p m q = false -> no_lf msg ->
-  exists out, render_span (p ++ m ++ q) (blen p, blen p + blen m) msg = Ok out /\
+Theorem render_span_shows fx p m q msg : KnownClass_span fx p m q = false -> no_lf msg ->
+  exists out, render_span fx (p ++ m ++ q) (blen p, blen p + blen m) msg = Ok out /\
               span_shows_as (span_vis m) p m q msg out = true.
 Proof.
-  intros HK Hmsg. destruct (known_unpack _ _ _ HK) as (K1 & K2 & K3 & K4).
+  intros HK Hmsg. destruct (known_unpack _ _ _ _ HK) as (K1 & K2 & K3 & K4).
   unfold render_span. rewrite new_from_span_correct. cbn [bind].
   assert (Hsl : hd [] (texts_of p m q) = the_line p (m ++ q)).
   { unfold texts_of. destruct (m ++ q) as [|c0 r0] eqn:E.
@@ -529,7 +529,7 @@ Proof.
   assert (Hal : text_aligned (span_vis m) p = true) by (unfold text_aligned; now apply Nat.eqb_eq).
   assert (HCe : 2 <= Ce) by apply end_lc_col_ge2.
   assert (HC : 1 <= C) by apply spec_col_ge1.
-  set (cont := if span_vis m then _ else _).
+  set (cont := if fx then _ else _).
   match goal with |- exists out, format ?e = _ /\ _ =>
     replace e with (span_err (ISpan (blen p, blen p + blen m)) L C Le Ce line msg cont)
       by (unfold span_err; subst L C Le Ce; now rewrite <- !surjective_pairing) end.
@@ -543,7 +543,7 @@ Proof.
     { destruct (m ++ q) as [|c0 s0] eqn:E; [now apply app_eq_nil in E|].
       rewrite meet_cons in Emeet by (rewrite E; discriminate). discriminate. }
     destruct Hmq as [-> ->].
-    assert (Hcont : cont = None) by (subst cont; unfold texts_of; rewrite Emeet; cbn; now destruct (span_vis [])).
+    assert (Hcont : cont = None) by (subst cont; unfold texts_of; rewrite Emeet; cbn; now destruct fx, (span_vis [])).
     rewrite Hcont in *.
     assert (Hends : Le <= L /\ C <= Ce) by (subst Le Ce L C; rewrite app_nil_r; apply end_lc_empty).
     destruct Hends as [HLe HCle].
@@ -554,7 +554,7 @@ Proof.
     + rewrite Emeet. cbn [length]. apply Hm1. lia.
     + rewrite Emeet. reflexivity.
   - (* one line *)
-    assert (Hcont : cont = None) by (subst cont; unfold texts_of; rewrite Emeet; cbn; now destruct (span_vis m)).
+    assert (Hcont : cont = None) by (subst cont; unfold texts_of; rewrite Emeet; cbn; now destruct fx, (span_vis m)).
     rewrite Hcont in *.
     assert (Hends : Le <= L /\ C <= Ce).
     { assert (Hcase : m = [] \/ m <> []) by (destruct m; [left; reflexivity|right; discriminate]).
@@ -600,14 +600,16 @@ Proof.
         unfold count_nl at 2 in Hl. cbn [filter length] in Hl.
         subst Le. rewrite Em0, end_lc_lf. cbn [fst]. fold L. lia.
       - cbn [andb] in Hl. destruct (end_lc_nonlf p m Hm Ee) as [E1 _]. subst Le. rewrite E1. cbn [fst]. fold L. lia. }
-    set (cl := if span_vis m then line2 else visualize_whitespace line2).
-    assert (Hcont : cont = Some cl) by (subst cont cl; rewrite Hll; now destruct (span_vis m)).
+    set (cl := if fx then visualize_whitespace line2 else if span_vis m then line2 else visualize_whitespace line2).
+    assert (Hcont : cont = Some cl) by (subst cont cl; rewrite Hll; now destruct fx, (span_vis m)).
     rewrite Hcont in *.
     assert (Hcl : no_lf cl /\ (eqs cl (display false line2) || eqs cl (display true line2) = true)).
-    { subst cl. destruct (span_vis m) eqn:Ev.
-      - specialize (K2 eq_refl). fold r2 in K2. rewrite Es2 in K2.
-        split; [now apply no_lf_no_crlf|]. unfold display. rewrite strip_no_crlf by exact K2. now rewrite eqs_refl.
-      - split; [apply no_lf_visualize|]. unfold display. now rewrite eqs_refl, orb_true_r. }
+    { subst cl. assert (Hvz : no_lf (visualize_whitespace line2) /\
+                          (eqs (visualize_whitespace line2) (display false line2) || eqs (visualize_whitespace line2) (display true line2) = true)).
+      { split; [apply no_lf_visualize|]. unfold display. now rewrite eqs_refl, orb_true_r. }
+      destruct fx; [exact Hvz|]. destruct (span_vis m) eqn:Ev; [|exact Hvz].
+      - specialize (K2 eq_refl eq_refl). fold r2 in K2. rewrite Es2 in K2.
+        split; [now apply no_lf_no_crlf|]. unfold display. rewrite strip_no_crlf by exact K2. now rewrite eqs_refl. }
     destruct Hcl as [Hcl1 Hcl2].
     assert (HLle : L <= Le) by lia.
     rewrite (format_multi _ _ _ _ _ _ _ _ _ HLle Hu). eexists. split; [reflexivity|].
@@ -624,8 +626,8 @@ Proof.
         rewrite !(app_assoc (pad_left w (dec Le)) (lit " | ")), !eqs_app_prefix; exact Hcl2.
 Qed.
 
-Theorem span_render_correct p m q : KnownClass_span p m q = false -> span_render_ok p m q.
+Theorem span_render_correct fx p m q : KnownClass_span fx p m q = false -> span_render_ok fx p m q.
 Proof.
-  intros HK msg Hmsg. destruct (render_span_shows p m q msg HK Hmsg) as (out & E & S).
+  intros HK msg Hmsg. destruct (render_span_shows fx p m q msg HK Hmsg) as (out & E & S).
   exists out. split; [exact E|]. unfold span_shows. destruct (span_vis m); rewrite S; [reflexivity|apply orb_true_r].
 Qed.
